@@ -156,6 +156,8 @@ def _prepare(op, model, scratch):
     if name in ("marginal_pdf", "marginal_cdf"):
         dim = int(op.get("dim", 0))
         x = np.sort(_points(model, rng, 3)[:, dim]).copy()
+        if ghm.conditional_on[dim] is not None:
+            x = x[1:2].copy()  # numerical integration per point
         return (lambda a: getattr(model, name)(a["x"], dim)), {"x": x}, True
     if name == "marginal_icdf":
         dim = int(op.get("dim", 0))
@@ -592,7 +594,7 @@ def _scenarios(rng, tier):
     for sub in subjects:
         model = _build_subject(sub) if sub["kind"] != "fitted" else None
         # numerical double integrals (cdf, marginal_cdf of a conditional dimension) cost seconds per call: only for a few subjects
-        slow_ok = (sub["kind"] == "ghm" and sub["spec"]["struct"] in ("dnvgl_hs_tz", "indep2") and n_slow < (1 if tier == "quick" else 4)) \
+        slow_ok = (sub["kind"] == "ghm" and sub["spec"]["struct"] in (("omae_hs_tz",) if tier == "quick" else ("omae_hs_tz", "dnvgl_hs_tz", "indep2")) and n_slow < (1 if tier == "quick" else 4)) \
             or (sub["kind"] == "transformed" and tier != "quick" and n_slow < 6)
         n_slow += int(slow_ok)
         cat = _ops_for(sub, model if model is not None else _Dummy(2), rng, tier, slow_ok)
